@@ -16,6 +16,15 @@ CLAIMED = {
  "C13": dict(
    text="Path-sensitive exploration (with flag and pushed-vector pruning) of cli::check/echo/tokenize/create_project: Err returned iff a diagnostic was emitted / an Err arm taken / a non-empty diagnostic list seen; OK printed iff Ok returned; check's verdict is semantic()'s inspected Result; term::emit's Result must be inspected; main returns each command's Result unchanged. Directory/argument-order equivalence is not decided.",
    design="3 C13", technique="static analysis: path-state exploration over MIR CFG, result-use analysis"),
+ "C03": dict(
+   text="Path-sensitive accumulator analysis over every product function that owns a Vec<Diagnostic> (local, visitor field or tuple part): diagnostics that may have been collected must be read or moved out before Ok is returned; every name-keyed HashMap insert of a declaration in the analyzer must inspect the returned Option or be guarded by a failed lookup; every declaration kind parked by name in the topological re-assembly must also be a graph node; the tokenizer's diagnostics gate the parse. Decides these masking mechanisms for all file sets; companion-independence of individual rule predicates is not decided.",
+   design="3 C03", technique="static analysis: typestate dataflow over MIR CFG (accumulator Clean/Dirty/Checked/Moved), result-use analysis, cross-check of match arms against visitor overrides"),
+ "C06": dict(
+   text="Every iteration over a std HashMap/HashSet in product code is found through resolved callees and classified: flowing into an ordered container is a finding, order-free consumers are a frozen table with reasons, anything else is unclassified and reported. FileId equality/hash must be the derived structural ones. Pipeline ordering obligations (concatenate before transforms, toposort first, table-filling walk dominates resolving fold, no positional indexing of Library.elements) checked by dominance on MIR. Permutation/partition invariance of verdicts themselves is not decided.",
+   design="3 C06", technique="static analysis: resolved-callee site inventory, forward data-flow slice to collectors, CFG dominance"),
+ "C08": dict(
+   text="Lexer attribute table taken from the compiler's expanded AST: every lettered #[token]/#[regex] must carry ignore(case); no byte-wise string equality on Token.text inside grammar functions; Id equality/hash read only lower_case, Id built only by Id::from (to_lowercase), Id.original read only by the listed readers; every name table in parser/analyzer keyed by Id/Type; phf sets queried lower-cased; tokenize/parse pipeline links. The trivia clause (whitespace between any two tokens) is decided by the grammar reader rule R-C08-trivia when present. Equality of parsed libraries under respelling is not decided.",
+   design="3 C08", technique="static analysis: attribute-table lint over rustc AST, taint of Token.text into string equality on MIR, field who-reads, type-instantiation scan"),
  "C04": dict(
    text="Exhaustive static inventory of every panic-capable construct (unwrap/expect/panic!/todo!/index/overflow/div-by-zero asserts, documented-to-panic std/time APIs) reachable in the workspace call graph from tokenize/parse/analyze/render/CLI entry points; each site is discharged by a range/guard argument re-derived from the MIR on every run, justified by a listed invariant, or reported. Plus who-writes bound for FixedPoint.femptos, indent/outdent typestate over the renderer CFGs. Decides the 'never panics' clause for all inputs as far as the listed invariants hold; termination/time/stack are not decided.",
    design="3 C04", technique="static analysis: MIR panic-site inventory over the resolved call graph, guard dominance and range propagation, typestate dataflow"),
